@@ -52,17 +52,18 @@ structure Frame (s s' : St) : Prop where
   epoch : s'.epoch = s.epoch
   refs : s'.refs = s.refs
   call : s'.calls = s.calls
+  runs : s'.runs = s.runs
 
-theorem Frame.refl (s : St) : Frame s s := ⟨rfl, rfl, rfl, rfl, rfl⟩
+theorem Frame.refl (s : St) : Frame s s := ⟨rfl, rfl, rfl, rfl, rfl, rfl⟩
 theorem Frame.trans {a b c : St} (h1 : Frame a b) (h2 : Frame b c) : Frame a c :=
   ⟨h2.cfg.trans h1.cfg, h2.ctx.trans h1.ctx, h2.epoch.trans h1.epoch, h2.refs.trans h1.refs,
-   h2.call.trans h1.call⟩
+   h2.call.trans h1.call, h2.runs.trans h1.runs⟩
 
-theorem frame_modG (s : St) (g : Nat) (f : G → G) : Frame s (modG s g f) := ⟨rfl, rfl, rfl, rfl, rfl⟩
+theorem frame_modG (s : St) (g : Nat) (f : G → G) : Frame s (modG s g f) := ⟨rfl, rfl, rfl, rfl, rfl, rfl⟩
 theorem frame_cancelOpt (s : St) (g : Nat) (o : Option Nat) : Frame s (cancelOpt s g o) := by
-  cases o <;> exact ⟨rfl, rfl, rfl, rfl, rfl⟩
+  cases o <;> exact ⟨rfl, rfl, rfl, rfl, rfl, rfl⟩
 theorem frame_setRec (s : St) (k : Nat) (v : Option Rec) : Frame s (setRec s k v) :=
-  ⟨rfl, rfl, rfl, rfl, rfl⟩
+  ⟨rfl, rfl, rfl, rfl, rfl, rfl⟩
 
 /-- what the abstraction reads of a record -/
 def core (r : Option Rec) : Option (Nat × Option Nat) := r.map fun r => (r.data, r.deferRemove)
@@ -179,7 +180,7 @@ theorem ctors_newRec (s : St) (k g k' : Nat) :
   simp only [St.ctors, newRec, look_put]
   split <;> simp
 
-theorem frame_newRec (s : St) (k g : Nat) : Frame s (newRec s k g) := ⟨rfl, rfl, rfl, rfl, rfl⟩
+theorem frame_newRec (s : St) (k g : Nat) : Frame s (newRec s k g) := ⟨rfl, rfl, rfl, rfl, rfl, rfl⟩
 
 theorem key_createKey (s : St) (k k' : Nat) :
     (createKey s k).key k' =
@@ -191,7 +192,7 @@ theorem ctors_createKey (s : St) (k k' : Nat) :
     (createKey s k).ctors k' = if k' = k then s.ctors k + 1 else s.ctors k' := by
   simp only [createKey, ctors_newRec]; rfl
 
-theorem frame_createKey (s : St) (k : Nat) : Frame s (createKey s k) := ⟨rfl, rfl, rfl, rfl, rfl⟩
+theorem frame_createKey (s : St) (k : Nat) : Frame s (createKey s k) := ⟨rfl, rfl, rfl, rfl, rfl, rfl⟩
 
 theorem inSet_abs (s : St) (k : Nat) : (abs s).inSet k = (s.key k).isSome := by
   simp only [ASt.inSet, abs]
